@@ -510,6 +510,14 @@ def f4(ctx, fx, rule="C10.F4"):
         else:
             ctx.finding(rule, D, "envelope-kb-optional", "the reader requires the `kb_jwt` member (missing_field yields an error, not None: `%s`): a JSON-serialized SD-JWT without "
                         "key binding that leaves the member out is rejected while its Compact transcoding is accepted" % ty)
+    # unknown members of the JSON form are ignored (C10's quantifier: "extra unknown members in the JSON form"): the Compact transcoding
+    # simply does not carry them. `#[serde(deny_unknown_fields)]` makes the derived field visitor call `de::Error::unknown_field`.
+    unk = [(f, t) for n_, f in fx.fns.items() if "Deserialize" in n_ and "SDJWTJson" in n_ for _b, t in f.calls() if t.get("name") == "unknown_field"]
+    if unk:
+        ctx.finding(rule, unk[0][0], "envelope-unknown-members", "the reader rejects a JSON form that carries a member it does not know (unknown_field / deny_unknown_fields), "
+                    "while the Compact transcoding of the same SD-JWT is accepted", line=unk[0][1].get("line"))
+    else:
+        ctx.ok(rule, D, "envelope-unknown-members", "unknown members of the JSON form are ignored by the reader (no unknown_field error)")
     if read and set(written) != read:
         ctx.finding(rule, S, "envelope-names", "the member names written %s differ from the names read %s" % (sorted(written), sorted(read)))
     elif read:
